@@ -1,5 +1,5 @@
 (* C01 - build(Config(f, ...)) calls f with exactly the configured arguments. *)
-From Fiddle Require Import PyBase PySlice Sig ArgStore ArgSpec PyCall C01Check Anchors PyCall_proofs.
+From Fiddle Require Import PyBase PySlice Sig ArgStore ArgSpec PyCall C01Check AnchorsBuild AnchorsEdit PyCall_proofs.
 
 (* For every valid signature and every argument store satisfying the C01 storage invariant, what the
    callee observes after Fiddle's transformation + CPython's binding is the reference view: every
